@@ -30,6 +30,8 @@ Judge(e) ==
   ELSE IF Accept(Ctx(e, {"avg"}), e.q, e.cols, e.rows) THEN "lenient:avg"
   ELSE IF Accept(Ctx(e, {"order"}), e.q, e.cols, e.rows) THEN "lenient:order"
   ELSE IF Accept(Ctx(e, {"unbound", "types", "concat", "avg", "order"}), e.q, e.cols, e.rows) THEN "lenient:several"
+  ELSE IF Accept(Ctx(e, {"sideways"}), e.q, e.cols, e.rows) THEN "lenient:sideways"
+  ELSE IF Accept(Ctx(e, {"sideways", "unbound", "types", "concat", "avg", "order"}), e.q, e.cols, e.rows) THEN "lenient:sideways+"
   ELSE "wrong"
 
 Step ==
